@@ -28,7 +28,23 @@ def run(ctx):
     n_prog = ctx.pick(40, 400)
     depth = ctx.pick(3, 5)
     progs = lib.replay_programs(ctx) or list(gen.corpus())
-    while len(progs) < n_prog and not ctx.replay:
+    cont_texts = set()
+    if not ctx.replay:
+        # continuous draws: validated with the moment formulas translated from program/distribution/*.py
+        try:
+            import translate_dist
+            translate_dist.main()
+            okc, _ = lib.coq_make(["theories/Cmom.vo"])
+        except Exception as e:  # noqa
+            okc = False
+        if okc:
+            for p, g, t in gen.continuous_corpus():
+                progs.append((p, g, "cont:" + t))
+                cont_texts.add(P.prog_text(p))
+        else:
+            ctx.violation("translator:dist", {"theorem": "gen/DistGen.v / theories/Cmom.v"},
+                          "the translated distribution moments (gen/DistGen.v) no longer build", no_input=True)
+    while len(progs) < n_prog + len(cont_texts) and not ctx.replay:
         g = gen.G(ctx.rng, max_depth=ctx.rng.choice([1, 2]))
         p = g.program()
         progs.append((p, g.goals(2), "+".join(sorted(g.features))))
@@ -61,14 +77,15 @@ def run(ctx):
             except (core.NotModelled, ValueError) as e:
                 errs["not-modelled"] = errs.get("not-modelled", 0) + 1
                 continue
-            term = (f"[check_types {fp_c} {T_c}; check_system cm0 {fp_c} {T_c} {ms_c} {A_c}; "
-                    f"check_init_vals cm0 (fp_init {fp_c}) {ms_c} {v_c}]")
+            cm = "cmom_gen" if text in cont_texts else "cm0"
+            term = (f"[check_types {fp_c} {T_c}; check_system {cm} {fp_c} {T_c} {ms_c} {A_c}; "
+                    f"check_init_vals {cm} (fp_init {fp_c}) {ms_c} {v_c}]")
             cases.append({"text": text, "pj": P.to_json(p), "gj": [P.to_json(m)], "goal": gen.goal_text(m), "flat": flat, "gr": gr, "term": term, "fp": fp_c, "T": T_c,
-                          "ms": ms_c, "A": A_c, "v": v_c, "n_ms": len(ms), "flat_text": r.get("flat_text"),
+                          "ms": ms_c, "A": A_c, "v": v_c, "n_ms": len(ms), "flat_text": r.get("flat_text"), "cont": text in cont_texts,
                           "G": r.get("original_loop_guard")})
     files = []
     for j, c in enumerate(cases):
-        files.append((f"c03_{j}", core.WP_HEADER + f"Eval vm_compute in {c['term']}.\n"))
+        files.append((f"c03_{j}", (core.WP_HEADER_CONT if c["cont"] else core.WP_HEADER) + f"Eval vm_compute in {c['term']}.\n"))
     outs = lib.coq_run_many(ctx, files, timeout=150)
     todo = []
     for j, c in enumerate(cases):
